@@ -45,6 +45,10 @@ class NumpySerializedList(collections.UserList):
         return len(self._addr)
 
     def __getitem__(self, idx):
+        if idx < 0:
+            if idx < -len(self):
+                raise IndexError(idx)
+            idx = idx + len(self)
         start_addr = 0 if idx == 0 else self._addr[idx - 1].item()
         end_addr = self._addr[idx].item()
         bytes = memoryview(self._lst[start_addr:end_addr])
